@@ -122,12 +122,24 @@ func runModel(cases []Case) ([][]string, error) {
 			in.WriteByte('\n')
 		}
 	}
-	cmd := exec.Command(driverPath)
-	cmd.Stdin = &in
 	var out bytes.Buffer
-	cmd.Stdout = &out
-	cmd.Stderr = realStderr
-	if err := cmd.Run(); err != nil {
+	input := in.Bytes()
+	for attempt := 0; ; attempt++ {
+		cmd := exec.Command(driverPath)
+		cmd.Stdin = bytes.NewReader(input)
+		out.Reset()
+		cmd.Stdout = &out
+		cmd.Stderr = realStderr
+		err := cmd.Run()
+		if err == nil {
+			break
+		}
+		// the driver binary is replaced when another check relinks it: wait for the new one rather than report
+		// a disagreement that is not one
+		if _, statErr := os.Stat(driverPath); (os.IsNotExist(statErr) || strings.Contains(err.Error(), "text file busy") || strings.Contains(err.Error(), "no such file")) && attempt < 120 {
+			time.Sleep(500 * time.Millisecond)
+			continue
+		}
 		return nil, fmt.Errorf("lean driver failed: %v", err)
 	}
 	sc := bufio.NewScanner(&out)
